@@ -52,7 +52,7 @@ def wkind(tb, w):
     if a is None and b is None:
         return "absent"
     m = tb.rows_in(w)
-    k = "start-only" if b is None else "end-only" if a is None else "closed"
+    k = "start-only" if b is None else "end-only" if a is None else "inverted" if b < a else "closed"
     cov = "empty" if not m.any() else "all" if m.all() else "partial"
     onrow = "on-row" if (a in tb.secs or b in tb.secs) else "off-row"
     return f"{k}/{cov}/{onrow}"
@@ -327,7 +327,14 @@ def run(ctx) -> None:
             unsorted = with_time and n >= 3 and rng.random() < 0.2
             if unsorted:
                 secs = list(secs) if secs is not None else [P.T0 + 60 * i for i in range(n)]
-                rng.shuffle(secs)  # rows are not in time order: a window selects non-contiguous rows
+                how = rng.choice(["shuffled", "shuffled", "descending", "duplicated"])
+                if how == "descending":
+                    secs.sort(reverse=True)
+                elif how == "duplicated":
+                    secs = [secs[k - k % 2] for k in range(n)]  # pairs of rows share an instant
+                    rng.shuffle(secs)
+                else:
+                    rng.shuffle(secs)  # rows are not in time order: a window selects non-contiguous rows
             tb = P.Table(n, streams=streams, secs=secs, with_z=rng.random() < 0.8, with_pos=rng.random() < 0.8,
                          with_time=with_time, time_unit=unit)
             nctx = rng.choice([1, 2, 3, 3, 5, 7])
@@ -364,11 +371,13 @@ def run(ctx) -> None:
                     sd[s] = tests
                 contexts.append({"window": w, "streams": sd})
             variants = fe_variants(ctx, tb, nstreams == 1)
+            chosen = rng.sample(variants, min(len(variants), ctx.pick(3, 6)))
             if unsorted:
-                # label selection in xarray presupposes a monotonic time coordinate (xarray's own precondition)
-                variants = [v for v in variants if not v[0].startswith("xarray")]
                 ctx.count("c05.unsorted_time_tables")
-            for fe, opts in rng.sample(variants, min(len(variants), ctx.pick(3, 6))):
+                xs = [v for v in variants if v[0].startswith("xarray")]
+                if xs and not any(v[0].startswith("xarray") for v in chosen):
+                    chosen.append(rng.choice(xs))  # every front end selects rows by value, in original order
+            for fe, opts in chosen:
                 run_one(ctx, tb, contexts, fe, opts, scratch, "w2-unsorted" if unsorted else "w2")
         # ---- histories across runs: two data sets with the same length and the same first / last instant but different
         #      interior instants, run one after the other with the same window
